@@ -83,7 +83,7 @@ class ExprMixin:
             b = self.static_ctype(node.operand2, fr)
             if a is None or b is None:
                 return None
-            if a == "double" or b == "double":
+            if a in ("double", "float32") or b in ("double", "float32"):
                 return "double"
             if a in INT_TYPES and b in INT_TYPES:
                 if "ulong" in (a, b):
@@ -341,7 +341,7 @@ class ExprMixin:
             if _sym._isnan(a) or _sym._isnan(b):
                 return math.nan
             return (a if is_sym(a) else Sym(_sym.zreal(a))) / b
-        cdouble = (ta == "double" or tb == "double")
+        cdouble = (ta in ("double", "float32") or tb in ("double", "float32"))
         if isinstance(a, np.ndarray) or isinstance(b, np.ndarray):
             return a / b
         if exact() and isinstance(a, (int, Fraction)) and isinstance(b, (int, Fraction)) \
